@@ -221,3 +221,14 @@ pin("multidecoder.decoders.hex.find_FromHexString",
     FROMHEXSTRING_RE=rb"(?i)(?:\[System.Convert\]::|)FromHexString[(]'(?:(?:[0-9a-f][0-9a-f]){10,})'[)]")
 pin("multidecoder.decoders.base64.find_base64",
     BASE64_RE=rb"(?:" + B64 + rb"{4,}(?:<\x00  \x00|)(?:&#13;|&#xD;|)(?:&#10;|&#xA;|)\r{0,1}\n{0,1}){5,}" + B64 + rb"{2,}={0,2}")
+
+# C15 / C11: string literals (a doubled quote, a back-tick pair, a backslash pair are escapes inside double quotes; only the doubled quote inside single quotes), the
+# joining operators with optional blanks / line-continuation underscores, the reverse call forms, CreateObject, dotted quads, domains, e-mail addresses
+DQ = rb'"(?:[^"`\\]|""|`.|\\[^"]|\\"{1,2})*"'
+SQ = rb"'(?:[^']|'')*'"
+LIT = rb"(?:" + SQ + rb"|" + DQ + rb")"
+SPACER = rb"[\s_]*(?:&amp;|[+]|&)[\s_]*"
+pin("multidecoder.decoders.concat.find_concat", CONCAT_SPACER_RE=SPACER, STRING_RE=LIT, CONCAT_RE=LIT + rb"(?:" + SPACER + LIT + rb")+")
+pin("multidecoder.decoders.reverse.find_reverse", REVERSE_RE=rb"(?i)reverse(?:d|)[(]\s*" + LIT + rb"\s*[)]")
+pin("multidecoder.decoders.vba.find_strreverse", STRREVERSE_RE=rb"(?i)strreverse[(]\s*" + LIT + rb"\s*[)]")
+pin("multidecoder.decoders.vba.find_createobject", CREATE_OBJECT_RE=rb"(?i)CREATEOBJECT[(]")
